@@ -283,16 +283,16 @@ class RaggedRun:
             out.viol('readme-stale', 'ragged:' + tag, f'step {self.stepno}: line {i}: on disk {a[i] if i < len(a) else "<eof>"!r} / regenerated {b[i] if i < len(b) else "<eof>"!r}')
             return False
         f = ragged_readme_fields(txt)
-        if f['n'] != n:
+        if f['n'] is not None and f['n'] != n:
             out.viol('readme-wrong-field', 'ragged:count:' + tag, f"README says {f['n']} subarrays, there are {n}")
             return False
         wantdims = [(k, (len(m[k]),) + tuple(self.atom)) for k in range(min(n, 5))]
         if n > 5:
             wantdims.append((n - 1, (len(m[-1]),) + tuple(self.atom)))
-        if f['dims'] != wantdims:
+        if (f['dims'] or not n) and f['dims'] != wantdims:
             out.viol('readme-wrong-field', 'ragged:dims:' + tag, f"README lists {f['dims']}, current {wantdims}")
             return False
-        if f['numtype'] != self.dt.name:
+        if f['numtype'] is not None and f['numtype'] != self.dt.name:
             out.viol('readme-wrong-field', 'ragged:numtype', f"README says {f['numtype']}, data are {self.dt.name}")
             return False
         for lang in fresh.readcodelanguages:
